@@ -20,7 +20,7 @@ RULE = ('element types: every routine also on int64 / int32 / uint8 / bool copie
         'renamings for k<=3} x W in {all 64 binary 4-node graphs, weights {0,1,2} (729) and {0,1/2,1} (729), 3-node digraphs over {0,1/2,2} (729), signed {-1,0,1} (729), binary '
         'digraphs with <=... (every 16th of 4096)} for participation_coef (3 degree modes), participation_coef_sign, '
         'module_degree_zscore (flags 0-3), diversity_coef_sign, gateway_coef_sign (2 centrality types), modularity_und/_dir '
-        '(kci), modularity_und_sign; partition_distance on all ordered pairs of partitions of 4 and 5 nodes (2704) with '
+        '(kci), modularity_und_sign; partition_distance on all ordered pairs of partitions of 4 and 5 nodes (2704), the second vector also as float and uint64 against every relabelling of the first (mixed element types), with '
         'relabellings of each side; agreement (buffsz default, 1, 2, 3) / agreement_weighted on all pairs and triples of 4-node partitions; ci2ls/ls2ci (zeroindexed False and True) on '
         'every partition and relabelling (thorough: 5-node partitions x 5-node binary graphs); non-trivial = (W, partition) '
         'with 2 <= k < n modules and at least one connection inside and one between modules')
@@ -191,7 +191,10 @@ def work(unit):
                     if (abs(mi - 1) < 1e-12) != equal:
                         t.viol('partition_distance', 'unit_MI_iff_equal', case, observed=mi, expected=equal)
                 for rname, rx in ss.relabellings(cx).items():
-                    for rname2, ry in (('identity', cy), ('tens', cy * 10), ('zero_based', cy - 1)):
+                    # the other side also in another element type than the first (labels of the two vectors are never
+                    # comparable: a joint view of them must not go through a common type)
+                    for rname2, ry in (('identity', cy), ('tens', cy * 10), ('zero_based', cy - 1),
+                                       ('float', cy.astype(float) + 0.5), ('uint64', cy.astype(np.uint64))):
                         r = result(bct.partition_distance, rx, ry)
                         t.c['evaluations'] += 1
                         if not same_result(base, r):
